@@ -91,6 +91,10 @@ def shapes(tier):
         out.append({"mode": "inmem", "N": N, "n_lin": 1, "kmax": "sym", "neginf": ninf})
         out.append({"mode": "file", "N": N, "n_lin": 1, "kmax": "none", "n_batches": 2, "randomize": False, "n_prior": None,
                     "src": "filename" if N % 2 else "object", "pool": 1, "neginf": ninf})
+    # a square batch (as many samples as packed columns)
+    if tier == "quick":
+        out.append({"mode": "inmem", "N": 5, "n_lin": 1, "kmax": "none"})
+        out.append({"mode": "api", "N": 5, "n_lin": 1, "kmax": "none", "in_memory": True, "src": "object", "randomize": False, "n_batches": None, "pool": 1})
     # a tiny random subset of a large library (size relations such as 100 * n_prior_samples <= n_total)
     out.append({"mode": "file", "N": 200 if tier == "quick" else 300, "n_lin": 1, "kmax": "none", "n_batches": None, "randomize": True, "n_prior": 2,
                 "src": "filename", "pool": 1})
